@@ -335,6 +335,7 @@ def mon_c05(case, out):
     nservers = 1
     reply_tx = {}     # marker -> transmissions (dict) the replies carrying it were addressed to
     eagain_seen = False
+    weak_before_good = False
     for op, evs, line in _iter(case, out):
         t = op.split()
         kv = _kv(t)
@@ -343,6 +344,7 @@ def mon_c05(case, out):
             eagain_seen = False
             dns0x20 = bool(int(kv.get("flags", "0")) & 1024)
             now, good_marks, good_at = 0, {}, None
+            weak_before_good = False
             nservers = len(kv.get("servers", "x").split(","))
             continue
         if t[0] == "adv":
@@ -374,6 +376,13 @@ def mon_c05(case, out):
             # UDP request that lacks one is dropped for 120 s (then support is considered withdrawn)
             if withck and nservers == 1 and ck in ("none", "clientonly") and good_at is not None and now - good_at < 120000:
                 forged = True
+            # a response without a server cookie that is accepted before support was shown moves the server to
+            # "cookies unsupported" (ares_cookie_validate, state GENERATED -> UNSUPPORTED); server cookies seen after that
+            # do not establish support again, so the drop rule above no longer applies: once such a response was issued
+            # (delivered or not, with or without answer records) the rule is switched off for the rest of the case
+            if withck and good_at is None and (ck in ("none", "clientonly") or
+                                               (ck in ("", "echo") and len(txinfo[k].get("ck", "")) <= 16)):
+                weak_before_good = True
             if kv.get("kind", "noerror") == "noerror" and int(kv.get("an", "1")) > 0:
                 mark = int(kv.get("mark", k))
                 replies.setdefault(mark, []).append(forged)
@@ -384,7 +393,7 @@ def mon_c05(case, out):
             m = re.match(r"cb\((\d+),ok,to=\d+,rc=0,an=\d+,10\.(\d+)\.(\d+)\.\d+/", e)
             if m:
                 mark = int(m.group(2)) * 256 + int(m.group(3))
-                if good_marks.get(mark):
+                if good_marks.get(mark) and not weak_before_good:
                     good_at = now
                 # assigned connection: every reply carrying this marker was addressed to a transmission that, at the
                 # moment of delivery, is not the query's latest one and used another connection
